@@ -309,6 +309,17 @@ fn point(ctx: &Ctx, c: &Case, obs: &mut Obs) -> PropResult {
         ensure!(d <= 2e-3 * mag, "{} of {:?} = {:?}; the published definition gives {:?} (distance {:e} in the target embedding, allowed 2e-3)", label, x, got, want.alts[0], d);
         return Ok(());
     }
+    // xyY: the chromaticity coordinates are prescribed values in their own right (x = X / (X + Y + Z)); the embedding
+    // cannot see them when the luminance is zero, so they are also compared directly wherever the sum is a usable divisor
+    if a.k == K::Xyz && b.k == K::Yxy {
+        let sum = x[0] + x[1] + x[2];
+        if sum > 1e-6 {
+            let w = want.alts[0];
+            let tc = 1e-9 + 1e-13 / sum;
+            obs.class(if x[1] == 0.0 { "xyY chromaticity of a zero-luminance colour" } else { "xyY chromaticity" });
+            ensure!((got[0] - w[0]).abs() <= tc && (got[1] - w[1]).abs() <= tc, "{} of {:?} = {:?}; CIE 15 gives the chromaticity ({}, {}) (x = X / (X + Y + Z), y = Y / (X + Y + Z))", label, x, got, w[0], w[1]);
+        }
+    }
     let t = tol(want.tier) * mag;
     if !(d <= t) && want.tier == Tier::Hsluv {
         // the HSLuv reference returns (h, 0, 100) / (100, 0, h) for L > 99.9999999; palette has only the lower guard
